@@ -130,10 +130,26 @@ class Check(PropertyCheck):
                 return _exc(e)
         if k == 'pair':
             a, b = mk(case['a']), mk(case['b'])
+            # the operands have been inspected before (anything remembered about them must not leak into results)
+            for q in (a, b):
+                q.shape, q.center, q.extent
             u = a.union(b)
             i = a.intersection(b)
-            return {'union': _box(u), 'inter': _box(i), 'union_op': _box(a | b), 'inter_op': _box(a & b),
-                    'union_rev': _box(b.union(a)), 'inter_rev': _box(b.intersection(a))}
+            res = {'union': _box(u), 'inter': _box(i), 'union_op': _box(a | b), 'inter_op': _box(a & b),
+                   'union_rev': _box(b.union(a)), 'inter_rev': _box(b.intersection(a))}
+            # shape / centre / extent of every result agree with its own corners
+            derived = []
+            for name, r in (('union', u), ('inter', i), ('union_rev', b.union(a)), ('inter_rev', b.intersection(a))):
+                if r is None:
+                    continue
+                okd = (tuple(int(v) for v in r.shape) == (int(r.iymax) - int(r.iymin), int(r.ixmax) - int(r.ixmin))
+                       and tuple(Fraction(float(v)) for v in r.center) == (Fraction(int(r.iymin) + int(r.iymax) - 1, 2), Fraction(int(r.ixmin) + int(r.ixmax) - 1, 2))
+                       and tuple(Fraction(float(v)) for v in r.extent) == (Fraction(2 * int(r.ixmin) - 1, 2), Fraction(2 * int(r.ixmax) - 1, 2),
+                                                                            Fraction(2 * int(r.iymin) - 1, 2), Fraction(2 * int(r.iymax) - 1, 2)))
+                if not okd:
+                    derived.append(f'{name}: corners {_box(r)} shape {tuple(r.shape)} center {tuple(r.center)} extent {tuple(r.extent)}')
+            res['derived_bad'] = derived
+            return res
         if k == 'triple':
             a, b, c = mk(case['a']), mk(case['b']), mk(case['c'])
             def I(p, q):
@@ -200,6 +216,11 @@ class Check(PropertyCheck):
                 return {'ok': None, 'both_none': True}
             return {'ok': [[int(v) for v in s] for s in r['ok']]}
 
+    def equal(self, case, real, model):
+        # 'derived_bad' (shape/centre/extent of results vs their own corners) is judged by the oracle only
+        r = {k: v for k, v in real.items() if k != 'derived_bad'} if isinstance(real, dict) else real
+        return r == model
+
     # ---------------------------------------------------------------- Spec oracle (python sets / ints)
     def oracle(self, case, real):
         k = case['kind']
@@ -246,6 +267,8 @@ class Check(PropertyCheck):
                     bad('union_not_least', f'{a} {b} -> {u}')
                 if small and not (_pix(a) | _pix(b)) <= _pix(u):
                     bad('union_not_containing', f'pixels {a} {b} -> {u}')
+            if real.get('derived_bad'):
+                bad('result_properties_inconsistent', f'{a} {b}: {real["derived_bad"][0]}')
             if real['union_rev'] != u or real['union_op'] != u:
                 bad('union_not_commutative', f'{a} {b}')
             if real['inter_rev'] != i or real['inter_op'] != i:
